@@ -1,4 +1,102 @@
+(* C03/Props.v — property theorems only.  Each is closed by [exact] of a lemma from Lemmas.v and followed by
+   Print Assumptions (parsed by the check: must be "Closed under the global context").
+
+   The model (Model.v) is of mpf/core/switch_controller.py WITH fixes/C03-*.patch applied; the unfixed code
+   violates the property in three ways (NOTES.md), each reproduced on the implementation by the check's oracle.
+
+   Histories: [exec A s evs] runs any list of timed events — external operations (report raw/logical, register,
+   remove, query) and "the loop runs the pending wake-up" — from any state; [A] scripts what every callback does
+   when invoked (register/remove handlers), so re-entrancy is covered unless a theorem says otherwise.
+   Satisfiability Examples for the hypotheses are at the end of Lemmas.v, names starting with ex_. *)
 From Common Require Import Prelude.
 From C03 Require Import Model Lemmas.
-Theorem placeholder : forall s : state, s = s. Proof. exact placeholder_l. Qed.
-Print Assumptions placeholder.
+Open Scope Z_scope.
+
+(* After ANY history the logical state is the logical value of the last report (NC inversion applied to raw
+   reports only), whatever callbacks did, and hw_state stays the matching raw value. *)
+Theorem state_mirrors_last_report :
+  forall A evs s, hw s = xorb (sst s) (inv s) ->
+    let s' := fst (exec A s evs) in
+    inv s' = inv s /\ sst s' = last_logical (inv s) evs (sst s) /\ hw s' = xorb (sst s') (inv s').
+Proof. exact state_mirrors_l. Qed.
+Print Assumptions state_mirrors_last_report.
+
+(* A report of the state the switch is already in changes nothing and invokes nothing. *)
+Theorem duplicate_is_noop :
+  forall A now s lg v, logical_of (inv s) lg v = sst s -> step_op A now s (OReport lg v) = (s, []).
+Proof. exact duplicate_is_noop_l. Qed.
+Print Assumptions duplicate_is_noop.
+
+(* Full statement: a real change invokes every untimed handler (and event post) registered for the new state
+   exactly once, at the time of the change, in registration order, and nothing else.
+   Proved for callbacks that only REGISTER handlers while the change is dispatched (adds_only).  A callback
+   that REMOVES a not-yet-invoked handler during the dispatch prevents its invocation (entry.cancelled); that
+   behaviour is covered by removed_never_fires (no guard) and by the correspondence runs, not by this theorem. *)
+Theorem untimed_once_per_change_partial :
+  forall A now s lg val, adds_only A -> logical_of (inv s) lg val <> sst s ->
+    snd (report A now s lg val)
+    = untimed_fires now (logical_of (inv s) lg val) (reg_of (rg s) (logical_of (inv s) lg val)).
+Proof. exact untimed_once_l. Qed.
+Print Assumptions untimed_once_per_change_partial.
+
+(* Fix 3 (orphan wake-up): in every reachable state the loop holds exactly the recorded wake-up handle of the
+   switch (none when nothing is recorded), a recorded wake-up implies a deadline table, and no history makes
+   _process_active_timed_switches hit a missing dictionary entry — for arbitrary re-entrant callbacks. *)
+Theorem single_wakeup_never_crashes :
+  forall A evs s, W (tm s) ->
+    W (tm (fst (exec A s evs))) /\ (forall t, ~ In (Crash t) (snd (exec A s evs))).
+Proof. exact exec_WN. Qed.
+Print Assumptions single_wakeup_never_crashes.
+
+Theorem initial_state_single_wakeup : forall nc st h lc0 a b, W (tm (init_state nc st h lc0 a b)).
+Proof. exact init_W. Qed.
+Print Assumptions initial_state_single_wakeup.
+
+(* A removed handler never fires: after remove_switch_handler(cb,st,ms), in any state (including with duplicate
+   registrations and pending timed entries — fix 2) and for any later history and any callback scripts that do not
+   register that same (cb,st,ms) again, no invocation of (cb,st,ms) occurs. *)
+Theorem removed_never_fires :
+  forall A cb st ms, acts_ok A cb st ms -> forall s evs, Forall (ev_ok cb st ms) evs ->
+    forall t, ~ In (Fire t cb st ms) (snd (exec A (rem s cb st ms) evs)).
+Proof. exact removed_never_fires_l. Qed.
+Print Assumptions removed_never_fires.
+
+(* timed_iff_held — full statement (NOT proved as one theorem): in every history in which wake-ups run at their
+   deadlines, a handler (cb,v,ms>0) registered before a change to v at t0 is invoked exactly once, at t0+ms, iff
+   no change and no removal happens before t0+ms; a handler registered at t in (t0, ...) while the switch is in v
+   is invoked at t0+ms iff t0+ms > t, never otherwise.
+   Proved parts (the three places where deadlines are created or dropped):
+     _change : a real change at [now] enters every timed handler registered for the new state in the deadline
+               table at now+ms (callbacks may register more meanwhile);
+     _catchup: registration while the switch is in the state enters the handler at the ORIGINAL deadline
+               last_change+ms iff that is still ahead, otherwise leaves the timers alone (fix 1); registration
+               for the other state never touches the timers;
+     _cancel : a real change drops the whole deadline table of the previous state;
+   together with single_wakeup_never_crashes (the one wake-up is the recorded one) and removed_never_fires.
+   Missing: the lemma that a wake-up at time t invokes exactly the entries with deadline <= t and re-arms at the
+   minimum remaining deadline, and the induction composing these over histories.  That part is validated on
+   every run by the correspondence (3000 timelines, wake-up times compared) and by the oracle. *)
+Theorem timed_iff_held_partial_change :
+  forall A now s lg val, adds_only A -> logical_of (inv s) lg val <> sst s ->
+    let v := logical_of (inv s) lg val in
+    let s' := fst (report A now s lg val) in
+    forall e, In e (reg_of (rg s) v) -> snd e <> 0 -> has s' (now + us (snd e)) (snd (fst e), v, snd e).
+Proof. exact change_schedules_l. Qed.
+Print Assumptions timed_iff_held_partial_change.
+
+Theorem timed_iff_held_partial_catchup :
+  forall now s cb ms, 0 < ms ->
+    let s' := add now s cb (sst s) ms in
+    (now < lc s + us ms -> has s' (lc s + us ms) (cb, sst s, ms)) /\
+    (lc s + us ms <= now -> tm s' = tm s).
+Proof. exact catchup_l. Qed.
+Print Assumptions timed_iff_held_partial_catchup.
+
+Theorem timed_iff_held_partial_other_state :
+  forall now s cb st ms, st <> sst s -> tm (add now s cb st ms) = tm s.
+Proof. exact add_other_state_l. Qed.
+Print Assumptions timed_iff_held_partial_other_state.
+
+Theorem timed_iff_held_partial_cancel : forall T, timed (cancel T) = None.
+Proof. exact change_cancels_l. Qed.
+Print Assumptions timed_iff_held_partial_cancel.
